@@ -85,6 +85,13 @@ pub fn check_term(cx: &Ctx, t: &OwnedTerm, family: &str) {
     if !want.is_leaf() && cx.seen.lock().unwrap().insert(h64(&enc)) {
         rep.add("distinct_nontrivial", 1);
     }
+    // the zero-copy decoder reads the library's own encoding back to the same term
+    if enc.len() <= 1 << 20 {
+        match erltf::decode_borrowed(&enc) {
+            Ok(b) => { let back = denote(&b.to_owned()); if !exact_eq(&back, &want) { rep.violation("decode_borrowed(encode(t)) denotes a different value", json!({"family": family, "value": want.short(), "decoded": back.short()})); } }
+            Err(e) => rep.violation("decode_borrowed rejects the library's own encoding", json!({"family": family, "value": want.short(), "error": e.to_string()})),
+        }
+    }
     // the streaming entry point must hand the writer exactly the same bytes, however little the writer takes per call
     if enc.len() <= 4096 {
         for quota in [1usize, 3, usize::MAX] {
@@ -137,6 +144,8 @@ pub fn check_term(cx: &Ctx, t: &OwnedTerm, family: &str) {
 }
 
 pub fn run(rep: &Report) -> serde_json::Value {
+    // terms that arrive under a distribution header: a conforming sender's cache histories through one real cache
+    crate::c14::sender_histories(rep);
     // atoms by name: what the encoder writes for an atom built from a string is that string (judged against the string,
     // not against a value that went through the library's constructor)
     for name in crate::universe::atom_names(rep.thorough()) {
@@ -165,6 +174,18 @@ pub fn run(rep: &Report) -> serde_json::Value {
         OwnedTerm::Tuple(vec![int(1), atom(&"é".repeat(32768))]),
     ];
     over.par_iter().for_each(|t| check_term(&cx, t, "oversize"));
+    // long lists and tuples of small integers around every length an encoder might special-case (STRING_EXT holds at most
+    // 65535 bytes; tuples switch tags at 255/256), with one element outside the byte range in the middle
+    let mut longs: Vec<OwnedTerm> = vec![];
+    for n in [254usize, 255, 256, 257, 65_534, 65_535, 65_536, 65_537, 70_000] {
+        let bytes: Vec<OwnedTerm> = (0..n).map(|i| int((i % 256) as i64)).collect();
+        longs.push(OwnedTerm::List(bytes.clone()));
+        let mut one_big = bytes.clone(); one_big[n / 2] = int(256); longs.push(OwnedTerm::List(one_big));
+        let mut one_neg = bytes.clone(); one_neg[n / 2] = int(-1); longs.push(OwnedTerm::List(one_neg));
+        if n <= 300 { longs.push(OwnedTerm::Tuple(bytes.clone())); }
+        longs.push(OwnedTerm::ImproperList { elements: bytes, tail: Box::new(int(7)) });
+    }
+    longs.par_iter().for_each(|t| check_term(&cx, t, "long-byte-lists"));
     fam.insert("leaves".into(), json!(l1.len() + 3 + over.len()));
     for t in l1.iter().take(4) {
         rep.sample(json!({"family": "leaf", "value": denote(t).short(), "bytes": hex(&erltf::encode(t).unwrap_or_default())}));
